@@ -182,13 +182,19 @@ class MindsDBParser(Parser):
     def create_chat_bot(self, p):
         params = p.kw_parameter_list
 
-        database = Identifier(params.pop('database'))
-        model_param = params.pop('model', None)
-        agent_param = params.pop('agent', None)
-        model = Identifier(
-            model_param) if model_param is not None else None
-        agent = Identifier(
-            agent_param) if agent_param is not None else None
+        if 'database' not in params:
+            raise ParsingException('DATABASE is required for CREATE CHATBOT')
+
+        def to_identifier(value):
+            if value is None or isinstance(value, Identifier):
+                return value
+            if not isinstance(value, str):
+                raise ParsingException(f'Expected a name, got: {value}')
+            return Identifier(value)
+
+        database = to_identifier(params.pop('database'))
+        model = to_identifier(params.pop('model', None))
+        agent = to_identifier(params.pop('agent', None))
         return CreateChatBot(
             name=p.identifier,
             database=database,
